@@ -10,20 +10,25 @@ import collections
 import hashlib
 import io
 import itertools
+import os
 import random
+import struct
 
 ID = 'C05'
 TITLE = 'LIS physical records: what is written is what is read, at any position'
 NATIVE = 'plain'
 NEEDS = ('icontract',)
-RULE = ('A file = 2..25 logical records with unique random content, length 2..3.5 x payload capacity (sizes drawn around '
+RULE = ('A file = 2..25 logical records (4 % of the files: a single record, half of those so short that the file is shorter than a TIF marker) '
+        'with unique random content, length 2..3.5 x payload capacity, in 12 % of the small-capacity files one record over 5..60 physical records (sizes drawn around '
         'multiples of the capacity; records capped at 6000 bytes except a "large" class with physical record lengths up to 65535 and '
         'records up to 3.5 x 65531 bytes), a maximum physical record length from the minimum legal value to 65535 (biased small, '
         'with the first-marker special lengths 244 and 65524 and lengths that make the first TIF next pointer a multiple of 256), the 8 trailer combinations in rotation, TIF off/on in rotation; one '
         '"record-number-wrap" file per run has > 65536 physical records. Each file is written by File.FileWrite with a fresh '
-        'PhysRecTail and read as written, and additionally with the TIF markers rewritten byte-reversed. A case is one '
+        'PhysRecTail (half of the files leave writer arguments that equal the documented defaults out; three files per shard are written to '
+        'and read back from a path the writer / reader open themselves) and read as written, and additionally with the TIF markers rewritten byte-reversed. A case is one '
         '(file, read target, operation history): a whole-record history, a seek-in-permuted-order history with random splits, '
-        'and a random history of 30..300 operations whose sizes are drawn around the distances to the next physical-record and '
+        'and a random history of 30..300 operations (readLrBytes, skipLrBytes, unpack(struct) where the record holds the bytes, skipToNextLr, '
+        'seekLr, rewind, seekCurrentLrStart, tellLr, tell; a third with the tolerant keepGoing reader) whose sizes are drawn around the distances to the next physical-record and '
         'logical-record boundary. Distinct by (file digest, target, operation list). Non-trivial = a record spanning >= 2 physical '
         'records is read or skipped by a sized operation that crosses a physical record boundary, or a seek goes to a record other '
         'than the next one. Exhaustive sub-space: every 2-record file with record lengths L1,L2 in 2..Lmax, payload capacity 1..Lmax, '
@@ -33,6 +38,7 @@ ASSUMPTIONS = [
     'The two checksum value bytes are excluded from the byte comparison: no reader verifies them and the algorithm cannot be cross-checked offline; their presence, position and the checksum attribute bit are compared',
     'End-of-record signals (None / 0 for a non-zero request) are accepted whenever the current record is exhausted and are not counted, except that more than 2 in a row before a non-final record yields data again is reported as no progress',
     'tellLr() directly after seekLr() and before any read is not asserted (the reader has not looked at the file yet; it reports 0)',
+    'seekCurrentLrStart() must land on the start of a record that tellLr() may report at that moment (directly after seekLr(): the record sought or record 0) and the cursor follows it',
     'tell() is asserted to be one of the structural positions that correspond to the logical cursor: inside a payload exactly, at a physical record boundary any of end-of-payload / end-of-record / start-of-next-payload',
     'Byte-reversed TIF files whose first next pointer is 0x100 or 0x10000 are not read: the two byte orders of the first marker are indistinguishable (the property text names 0x100; 0x10000 is its mirror image)',
     'strip_tif is applied to normal (little-endian) TIF files only; DeTif documents that reversed markers are not handled',
@@ -282,12 +288,8 @@ class Cursor:
         self.floor = min(newk, N - 1)
         return None
 
-    def tell_lr(self, v):
-        if self.fresh == 'seek':
-            self.ev['tellLr-after-seek-unasserted'] += 1
-            if v == self.starts[self.k]:
-                self.ev['tellLr-after-seek-is-record-start'] += 1
-            return None
+    def _lr_allowed(self):
+        """Records whose start tellLr() may report for the present cursor (not directly after a seek)."""
         k, o, N = self.k, self.o, self.N
         if k >= N:
             allowed = [N - 1]
@@ -295,7 +297,32 @@ class Cursor:
             allowed = [k]
         else:
             allowed = [k] + ([k + 1] if k + 1 < N else [])
-        allowed = [j for j in allowed if j >= self.floor]
+        return [j for j in allowed if j >= self.floor]
+
+    def seek_current(self, result):
+        """seekCurrentLrStart() = seekLr(tellLr()): must land on the start of a record that tellLr() may report; the
+        cursor follows.  Directly after construction that is record 0; directly after a seekLr() the reader has not looked
+        at the file yet (tellLr() is not asserted there, it reports 0), so record 0 and the record sought are accepted."""
+        if self.fresh == 'open':
+            allowed = [0]
+        elif self.fresh == 'seek':
+            allowed = sorted({0, self.k})
+            self.ev['seekCurrentLrStart-after-seek'] += 1
+        else:
+            allowed = self._lr_allowed()
+        for j in allowed:
+            if result == self.starts[j]:
+                self.ev['seekCurrentLrStart'] += 1
+                return self.seek(j, result)
+        return ('seek-current', 'seekCurrentLrStart() returned %r, expected %s' % (result, ' or '.join(str(self.starts[j]) for j in allowed)))
+
+    def tell_lr(self, v):
+        if self.fresh == 'seek':
+            self.ev['tellLr-after-seek-unasserted'] += 1
+            if v == self.starts[self.k]:
+                self.ev['tellLr-after-seek-is-record-start'] += 1
+            return None
+        allowed = self._lr_allowed()
         for j in allowed:
             if v == self.starts[j]:
                 self.floor = j
@@ -352,6 +379,15 @@ def apply_op(fr, cur, op, hist):
             res = fr.skipToNextLr()
         elif kind == 'seek':
             res = fr.seekLr(cur.starts[arg])
+        elif kind == 'rewind':
+            res = fr.rewind()
+        elif kind == 'seekcur':
+            res = fr.seekCurrentLrStart()
+        elif kind == 'unpack':
+            # FileRead.unpack(struct): a sized read of struct.size bytes; issued only where the record holds that many
+            res = fr.unpack(struct.Struct('%ds' % arg))
+            if isinstance(res, tuple) and len(res) == 1:
+                res = res[0]
         elif kind == 'tellLr':
             res = fr.tellLr()
         elif kind == 'tell':
@@ -363,12 +399,18 @@ def apply_op(fr, cur, op, hist):
     hist.append((kind, arg, _short(exc if exc is not None else res)))
     if kind in ('read', 'skip'):
         v = cur.rw(kind, arg, res, exc)
+    elif kind == 'unpack':
+        v = ('exception', 'unpack(%d bytes) raised %s: %s' % (arg, type(exc).__name__, str(exc)[:200])) if exc is not None else cur.rw('read', arg, res, None)
     elif kind == 'next':
         v = cur.skip_to_next(res, exc)
     elif exc is not None:
         v = ('exception', '%s raised %s: %s' % (kind, type(exc).__name__, str(exc)[:200]))
     elif kind == 'seek':
         v = cur.seek(arg, res)
+    elif kind == 'rewind':
+        v = cur.seek(0, res)
+    elif kind == 'seekcur':
+        v = cur.seek_current(res)
     elif kind == 'tellLr':
         v = cur.tell_lr(res)
     else:
@@ -410,7 +452,11 @@ def random_history(rng, nops, cur, cap):
                 continue
         x = rng.random()
         if x < 0.36:
-            yield ('read', sizes_near(rng, cur, cap))
+            n = sizes_near(rng, cur, cap)
+            if n >= 1 and cur.k < N and n <= len(cur.lrs[cur.k]) - cur.o and rng.random() < 0.2:
+                yield ('unpack', n)                 # the record holds n more bytes: unpack() must deliver exactly them
+            else:
+                yield ('read', n)
         elif x < 0.56:
             yield ('skip', sizes_near(rng, cur, cap))
         elif x < 0.64:
@@ -421,10 +467,14 @@ def random_history(rng, nops, cur, cap):
             yield ('next', None)
         elif x < 0.84:
             r = rng.random()
-            if r < 0.15:
+            if r < 0.07:
+                yield ('rewind', None)
+            elif r < 0.15:
                 yield ('seek', 0)
             elif r < 0.3 and cur.k < N:
                 yield ('seek', cur.k)
+            elif r < 0.45:
+                yield ('seekcur', None)
             else:
                 yield ('seek', rng.randrange(N))
         elif x < 0.93:
@@ -465,11 +515,13 @@ def permuted_history(rng, cur, cap):
             yield ('tellLr', None)
 
 
-def run_history(ctl, File, TapFile, data, model, info, target, htype, make_ops):
-    """One history on a fresh FileRead.  make_ops(cur) -> iterator of operations (may look at the cursor)."""
+def run_history(ctl, File, TapFile, data, model, info, target, htype, make_ops, keep_going=False, path=None):
+    """One history on a fresh FileRead.  make_ops(cur) -> iterator of operations (may look at the cursor).
+    keep_going: the reader's tolerant mode (must not change anything on a conformant file).  path: read the file by its
+    path (RawStream opens it) instead of from an in-memory stream."""
     tap = TapFile(data)
     try:
-        fr = File.FileRead(tap, 'c05', keepGoing=False)
+        fr = File.FileRead(path if path is not None else tap, 'c05', keepGoing=keep_going)
     except Exception as e:  # noqa
         ctl.violation('read_history', 'open', 'FileRead() raised %s: %s [%s]' % (type(e).__name__, e, target),
                       witness_of(info, model, data, target, [], None, {'kind': 'open'}), exc=e)
@@ -501,13 +553,21 @@ def run_history(ctl, File, TapFile, data, model, info, target, htype, make_ops):
     ctl.opseqs.add(hashlib.blake2b(repr(ops).encode(), digest_size=8).digest())
     rev = bool(fr._prh.tif.isReversed) if getattr(fr._prh, 'tif', None) is not None else False
     classes = ['history:' + htype, 'target:' + target]
+    if keep_going:
+        classes.append('reader-keep-going')
+    if path is not None:
+        classes.append('reader-opened-by-path')
+        try:
+            fr._prh.close()
+        except Exception:  # noqa
+            pass
     if rev:
         classes.append('reader-detected-reversed-tif')
     if cur.crossed:
         classes.append('nontrivial:sized-op-across-pr-boundary')
     if cur.out_of_order:
         classes.append('nontrivial:seek-out-of-order')
-    rec.case((info['digest'], target, htype, ops), cur.crossed or cur.out_of_order, classes=classes,
+    rec.case((info['digest'], target, htype, keep_going, path is not None, ops), cur.crossed or cur.out_of_order, classes=classes,
              sample={'file': info, 'target': target, 'history_type': htype, 'operations': len(hist), 'first_operations': [list(h) for h in hist[:12]]})
     return ok
 
@@ -520,13 +580,24 @@ def drain_contracts(ctl, T, info, model):
 
 
 # ------------------------------------------------------------------------------------------------ writer side
-def write_real(T, lrs, pr_len, tr, tif):
-    """The real writer on a CaptureIO with a *fresh* PhysRecTail.  Returns (bytes, positions)."""
+def write_real(T, lrs, pr_len, tr, tif, use_defaults=False, path=None):
+    """The real writer on a CaptureIO (or on a file it opens itself by path) with a *fresh* PhysRecTail.  Returns
+    (bytes, positions).  use_defaults: arguments that equal the documented defaults (no TIF, maximum physical record
+    length, no trailer) are left out, so the writer's own default objects are used."""
     cap = T['CaptureIO']()
-    fw = T['File'].FileWrite(cap, 'c05', hasTif=bool(tif), thePrLen=pr_len,
-                             thePrt=T['PhysRec'].PhysRecTail(tr.record_number, tr.file_number, tr.checksum))
+    kw = {}
+    if not (use_defaults and not tif):
+        kw['hasTif'] = bool(tif)
+    if not (use_defaults and pr_len == 65535):
+        kw['thePrLen'] = pr_len
+    if not (use_defaults and tr.length == 0):
+        kw['thePrt'] = T['PhysRec'].PhysRecTail(tr.record_number, tr.file_number, tr.checksum)
+    fw = T['File'].FileWrite(path if path is not None else cap, 'c05', **kw)
     pos = [fw.write(l) for l in lrs]
     fw.close()
+    if path is not None:
+        with open(path, 'rb') as f:
+            return f.read(), pos
     return cap.value(), pos
 
 
@@ -538,12 +609,12 @@ def first_difference(a, b):
     return n if len(a) != len(b) else None
 
 
-def check_writer(ctl, T, G, lrs, pr_len, tr, tif, info):
+def check_writer(ctl, T, G, lrs, pr_len, tr, tif, info, use_defaults=False, path=None):
     """Returns (real bytes, model) or None when the writer cannot be compared."""
     rec = ctl.rec
     exp, model = G.frame_file(lrs, pr_len, tr, 'le' if tif else None)
     try:
-        got, pos = write_real(T, lrs, pr_len, tr, tif)
+        got, pos = write_real(T, lrs, pr_len, tr, tif, use_defaults, path)
     except Exception as e:  # noqa
         ctl.violation('writer_vs_encoder', 'writer-exception', 'FileWrite raised %s: %s' % (type(e).__name__, e),
                       {'file': info, 'layout': model.describe(), 'kind': 'writer-exception'}, exc=e)
@@ -582,10 +653,10 @@ def check_writer(ctl, T, G, lrs, pr_len, tr, tif, info):
     return (got, model) if ok else None
 
 
-def check_strip(ctl, T, G, lrs, pr_len, tr, marked, model, info):
+def check_strip(ctl, T, G, lrs, pr_len, tr, marked, model, info, use_defaults=False):
     rec = ctl.rec
     try:
-        unmarked, _ = write_real(T, lrs, pr_len, tr, False)
+        unmarked, _ = write_real(T, lrs, pr_len, tr, False, use_defaults)
         out = io.BytesIO()
         T['DeTif'].strip_tif(io.BytesIO(marked), out)
         got = out.getvalue()
@@ -647,19 +718,34 @@ def gen_file(rng, fi, G):
         pr_len, klass = rng.choice([65535, 65534, 32768, rng.randrange(8000, 65536)]), 'maximal'
     cap = G.capacity(pr_len, tr)
     nrec = rng.randrange(2, 4) if large else rng.randrange(2, 26)
+    # a list of one record is a list too: 4 % of the files hold a single logical record, half of them a tiny one (the whole
+    # file is then shorter than one TIF marker, which is how the reader decides that a file has none)
+    single = (not large) and rng.random() < 0.04
+    tiny = single and rng.random() < 0.5
+    if single:
+        nrec = 1
     lengths = []
     for i in range(nrec):
         n = rng.choice([2, 3, cap - 1, cap, cap + 1, 2 * cap - 1, 2 * cap, 2 * cap + 1, 3 * cap, int(3.5 * cap),
                         rng.randrange(2, int(3.5 * cap) + 3), rng.randrange(2, int(3.5 * cap) + 3)])
         n = max(2, min(n, int(3.5 * cap)))
-        if not large and n > MAX_LR:
+        if tiny:
+            n = rng.randrange(2, 8)
+        elif not large and n > MAX_LR:
             # single physical record territory: vary the length instead of clipping everything to the cap
             n = rng.choice([MAX_LR, rng.randrange(2, 300), rng.randrange(2, MAX_LR + 1)])
         elif i == 0:
             n = max(n, cap + 1)
         lengths.append(n)
-    if first_full:
+    if first_full and not tiny:
         lengths[0] = max(lengths[0], min(cap + rng.randrange(0, 3), int(3.5 * cap)))
+    if not large and not tiny and cap <= 100 and rng.random() < 0.12:
+        # "several physical records" is not "at most four": one record of this file spans 5..60 of them
+        k = rng.randrange(len(lengths))
+        lengths[k] = max(2, min(MAX_LR, cap * rng.randrange(5, 61) + rng.choice([-1, 0, 0, 1, cap // 2])))
+        klass += '+many-pr-record'
+    if single:
+        klass += '+single-record'
     lrs = unique_records(rng, lengths)
     return lrs, pr_len, tr, tif, klass
 
@@ -692,28 +778,50 @@ def do_file(ctl, T, G, seed, part, fi, tier):
     rec = ctl.rec
     rec.cls('file-trailer:%s%s%s' % ('R' if tr.record_number else '-', 'F' if tr.file_number is not None else '-', 'C' if tr.checksum else '-'))
     rec.cls('file-tif:%s' % ('on' if tif else 'off'))
-    rec.cls('file-prlen:' + klass)
-    r = check_writer(ctl, T, G, lrs, pr_len, tr, tif, info)
+    for part_klass in klass.split('+'):
+        rec.cls('file-prlen:' + part_klass)
+    # writer options left at their defaults where the file's configuration is the default one (no TIF / 65535 / no trailer)
+    use_defaults = rng.random() < 0.5
+    if use_defaults and (not tif or pr_len == 65535 or tr.length == 0):
+        rec.cls('writer-arguments-left-at-defaults')
+    # three files per shard are written to and read from a path (the writer / reader open the file themselves)
+    path = None
+    tmpdir = os.environ.get('VERIF_SHARD_TMP')
+    if tmpdir and fi % 20 == 7:
+        path = os.path.join(tmpdir, 'c05_%d_%d.lis' % (part, fi))
+    r = check_writer(ctl, T, G, lrs, pr_len, tr, tif, info, use_defaults, path)
     if r is None:
         return
     got, model = r
+    if path is not None:
+        rec.cls('writer-opened-by-path')
     rec.maxi('max_physical_records_in_a_file', len(model.phys))
     rec.maxi('max_physical_records_in_a_logical_record', max(len(x.phys) for x in model.records))
+    rec.maxi('max_logical_records_in_a_file', len(lrs))
+    rec.extra['min_file_size'] = min(rec.extra.get('min_file_size', len(got)), len(got))
     if tif:
-        check_strip(ctl, T, G, lrs, pr_len, tr, got, model, info)
+        check_strip(ctl, T, G, lrs, pr_len, tr, got, model, info, use_defaults)
     targets, ambiguous = read_targets(G, got, model)
     if ambiguous:
         rec.cls('reversed-tif-ambiguous-first-marker-not-read')
     cap = model.capacity
     File, TapFile = T['File'], T['TapFile']
     for name, data, m in targets:
-        run_history(ctl, File, TapFile, data, m, info, name, 'whole-records', whole_history)
+        run_history(ctl, File, TapFile, data, m, info, name, 'whole-records', whole_history,
+                    path=path if data is got else None)
         hr = random.Random('C05h:%s:%s:%s:%s' % (seed, part, fi, name))
         run_history(ctl, File, TapFile, data, m, info, name, 'seek-permutation', lambda cur: permuted_history(hr, cur, cap))
         nh = 1 if tier == 'quick' else 2
         for h in range(nh):
             nops = hr.randrange(30, 301)
-            run_history(ctl, File, TapFile, data, m, info, name, 'random', lambda cur: random_history(hr, nops, cur, cap))
+            # a third of the random histories use the reader's tolerant mode: on a conformant file it must change nothing
+            kg = hr.random() < 0.33
+            run_history(ctl, File, TapFile, data, m, info, name, 'random', lambda cur: random_history(hr, nops, cur, cap), keep_going=kg)
+    if path is not None:
+        try:
+            os.remove(path)
+        except OSError:
+            pass
     drain_contracts(ctl, T, info, model)
 
 
